@@ -850,6 +850,8 @@ def check_sac_setup(rec, m, cfg):
         learned = m.ent_coef_optimizer is not None
     if not (abs(got - init) <= 1e-6 * max(1, abs(init))) or learned != isinstance(ec, str):
         rec.problems.append(("oracle-sac-ent-coef-setup", f"ent_coef={ec!r}: initial coefficient {got}, optimizer present {learned}; expected {init}, learned {isinstance(ec, str)}", -1))
+    if not (math.isfinite(got) and math.isfinite(H)):
+        return
     rec.exprs.append(("sac-setup", f"(ck (sac_target_entropy_Q {fopt(given)} {coq_list(shape, coq_Z)}) {fq(H)}, ck (sac_init_alpha_Q {spec}) {fq(got)}, Bool.eqb (sac_learned {spec}) {coq_bool(learned)})", -1))
 
 
